@@ -36,16 +36,22 @@ RoundTripOK(cs) ==
               /\ dl.ok /\ dl.reg = r
               /\ cs.loadLegacyRes = "ok" /\ Reg(cs.loadedLegacy) = r
 
+(* the registry after a load: exactly what the file denotes - or, when the registry already held other nodes *)
+(* (seeded), at least every node of the file as the file has it (whether the others stay is not determined) *)
+LoadedIs(cs, d) ==
+    IF cs.seeded THEN \A n \in DOMAIN d : n \in DOMAIN Reg(cs.loaded) /\ Reg(cs.loaded)[n] = d[n]
+    ELSE Reg(cs.loaded) = d
+
 LoadOK(cs) ==
     /\ cs.res \in {"ok", "readerror"}
     \* a file of the exact layout loads to the registry it denotes; if it holds a value outside the usual
     \* range (battery level beyond 0-100) it may also be refused with the read error
     /\ (cs.class = "json" /\ Denote(cs.file).ok) =>
-          IF LoadAccepts(Denote(cs.file).reg) THEN (cs.res = "ok" /\ Reg(cs.loaded) = Denote(cs.file).reg)
-          ELSE (cs.res = "ok" => Reg(cs.loaded) = Denote(cs.file).reg)
+          IF LoadAccepts(Denote(cs.file).reg) THEN (cs.res = "ok" /\ LoadedIs(cs, Denote(cs.file).reg))
+          ELSE (cs.res = "ok" => LoadedIs(cs, Denote(cs.file).reg))
     /\ (cs.class = "json" /\ DenoteLegacy(cs.file).ok) =>
-          IF LoadAccepts(DenoteLegacy(cs.file).reg) THEN (cs.res = "ok" /\ Reg(cs.loaded) = DenoteLegacy(cs.file).reg)
-          ELSE (cs.res = "ok" => Reg(cs.loaded) = DenoteLegacy(cs.file).reg)
+          IF LoadAccepts(DenoteLegacy(cs.file).reg) THEN (cs.res = "ok" /\ LoadedIs(cs, DenoteLegacy(cs.file).reg))
+          ELSE (cs.res = "ok" => LoadedIs(cs, DenoteLegacy(cs.file).reg))
     /\ (cs.class = "empty") => (cs.res = "ok" /\ (cs.before = <<>> => cs.loaded = <<>>))
     \* a missing file is created holding the current registry
     /\ (cs.class = "missing") => (cs.res = "ok" /\ Reg(cs.loaded) = Reg(cs.before)
